@@ -181,7 +181,13 @@ func (w *appWorld) client(r *sim.Rand) {
 			q.path = []string{"/nope", "/a/", "/A", "/b", "/echo2"}[r.Intn(5)]
 		}
 		for k := r.Intn(4); k > 0; k-- {
-			q.headers["X-H"+appText(w.seed, i*10+k, r.Range(1, 8))[:1]+fmt.Sprint(k)] = strings.TrimSpace("v" + appText(w.seed, i*100+k, r.Range(0, 30)))
+			v := strings.TrimSpace("v" + appText(w.seed, i*100+k, r.Range(0, 30)))
+			if r.Chance(0.3) {
+				// values may themselves contain the separator: the value runs to the end of the line
+				v = []string{"step: one", "{\"a\": 1, \"b\": 2}", "10:30: late", "a:b", "x: y: z"}[r.Intn(5)] + v
+				w.Probes["header_values_with_separator"]++
+			}
+			q.headers["X-H"+appText(w.seed, i*10+k, r.Range(1, 8))[:1]+fmt.Sprint(k)] = v
 		}
 		if q.method == "POST" || q.method == "PUT" || r.Chance(0.2) {
 			q.body = appText(w.seed, 7000+i, []int{0, 1, 10, 100, 300}[r.Intn(5)])
